@@ -45,7 +45,7 @@ EXTRA_VALUES = {
 def shards(tier):
     out = [{"kind": "positive", "slice": [i, 8]} for i in range(8)]
     out += [{"kind": "extras", "slice": [i, 4]} for i in range(4)]
-    out += [{"kind": "cli"}, {"kind": "keystore"}, {"kind": "key-bits"}]
+    out += [{"kind": "cli"}, {"kind": "keystore"}, {"kind": "key-bits"}, {"kind": "sequences"}, {"kind": "fill"}]
     deltas = [1, 0x80, 0xFF]
     for i in range(16):
         out.append({"kind": "tamper", "payload": 1, "deltas": deltas if tier == "quick" else list(range(1, 256)), "slice": [i, 16]})
@@ -88,6 +88,14 @@ def run_shard(shard, ctx):
             run_case({"kind": "keystore", "l1": 16, "l2": 16, "style": 0, "order": order}, ctx)
     elif kind == "key-bits":
         run_case({"kind": "key-bits"}, ctx)
+    elif kind == "sequences":
+        for seq in itertools.product("GAKN", repeat=3):
+            run_case({"kind": "sequence", "seq": "".join(seq)}, ctx)
+    elif kind == "fill":
+        # attribute area sizes around the end of the 4096-byte header block (unused bytes 0..9, 64, 2000)
+        for unused in list(range(0, 10)) + [64, 2000]:
+            for typ in (11, 12):
+                run_case({"kind": "fill", "unused": unused, "type": typ}, ctx)
     else:
         run_case({"kind": "tamper", "payload": shard["payload"], "deltas": shard["deltas"], "slice": shard["slice"]}, ctx)
 
@@ -152,6 +160,65 @@ def run_case(case, ctx):
                         ctx.violation(case, {"subject": "envelope.attributes", "kind": "mismatch", "type": t},
                                       {"name": name[:40], "got": repr(a)[:200], "stored": repr(val)[:100]})
                         return
+            return
+        if kind == "sequence":
+            # one Envelope object, three decrypt calls in every order of {Good, wrong Aad, wrong Key, No aad}
+            from dissect.hypervisor.util.envelope import Envelope
+
+            payload = B.det("payload", 3000)
+            aad = AADS[1]
+            img, _ = B.build(payload, KEY, IV, None, aad, 11)
+            ev = Envelope(io.BytesIO(img))
+            ctx.nontrivial += 1
+            for step, what in enumerate(case["seq"]):
+                ctx.transitions += 1
+                ctx.states += 1
+                k = bytes([KEY[0] ^ 1]) + KEY[1:] if what == "K" else KEY
+                a = {"G": aad, "A": aad[:-1] + b"x", "K": aad, "N": None}[what]
+                try:
+                    got = ev.decrypt(k, aad=a)
+                    raised = False
+                except Exception:
+                    raised, got = True, None
+                if what == "G":
+                    if raised or got != payload:
+                        ctx.violation(case, {"subject": "envelope.sequence", "kind": "valid-decrypt-failed-after-history", "step": step},
+                                      {"seq": case["seq"]})
+                        return
+                    ctx.outcome("decrypted")
+                elif not raised:
+                    ctx.violation(case, {"subject": "envelope.sequence", "kind": "accepted-after-history", "what": what, "step": step},
+                                  {"seq": case["seq"], "returned": len(got)})
+                    return
+                else:
+                    ctx.outcome("refused-aad" if what in "AN" else "refused-key")
+            return
+        if kind == "fill":
+            std = B.standard_attrs(KEY, IV)
+            base = sum(len(B.pack_attr(*a)) for a in std)
+            name = "vmware.filler"
+            room = 4096 - 512 - 4 - base - case["unused"]
+            overhead = 4 + len(name) + 1 + (1 if case["type"] == 11 else 8)
+            n = room - overhead
+            val = ("f" * n) if case["type"] == 11 else B.det("fill", n)
+            attrs = std[:2] + [(case["type"], 0, name, val)] + std[2:]
+            hdr, alen = B.header_block(attrs)
+            assert len(hdr) == 4096 and 512 + alen == 4096 - case["unused"], (len(hdr), alen, case)
+            payload = B.det("payload", 777)
+            img, _ = B.build(payload, KEY, IV, attrs, None, 5)
+            ctx.nontrivial += 1
+            ctx.transitions += 1
+            ctx.states += 1
+            try:
+                got = _decrypt(img, None)
+            except Exception as e:
+                ctx.violation(case, {"subject": "envelope.decrypt", "kind": "valid-envelope-refused", "exc": type(e).__name__,
+                                     "header_unused_bytes": case["unused"]}, {"exception": repr(e)[:300]})
+                return
+            if got != payload:
+                ctx.violation(case, {"subject": "envelope.decrypt", "kind": "wrong-plaintext"}, {"unused": case["unused"]})
+                return
+            ctx.outcome("decrypted")
             return
         if kind == "cli":
             return _case_cli(case, ctx)
